@@ -22,21 +22,21 @@ NA = {
 CHECKS = {
     "C01": dict(
         level="exploration",
-        text="Seeded simulation of programs of successful liquid operations on one device inside a real with-block; a second party - an independent interpreter of the Tecan record format with its own device-specific numbering and exact-rational well state - executes the newly appended records after every operation and, at the end, the file read back from a real scratch directory. Routing (which wells the records address), volumes and compositions are compared with the Labware twin after every step. Sampling over seeds: evidence, not proof.",
+        text="Seeded simulation of programs of successful liquid operations on one device inside a real with-block; a second party - an independent interpreter of the Tecan record format with its own device-specific numbering and exact-rational well state - executes the newly appended records after every operation and, at the end, the file read back from a real scratch directory. Routing (which wells the records address), volumes and compositions are compared with the Labware twin after every step. Sampling over seeds: evidence, not proof. A second worklist object of the other device kind may work on the same labware objects (its records are executed by a second robot sharing the wells); 40 % of the worlds carry on after a caught rejection (the robot adopts the twin's volumes); calls are repeated verbatim; every run starts in a library reset to its post-import state and one run in twenty is executed twice in one process.",
         note="Trusted: the robot interpreter (verif/sim/robot.py) as the meaning of A/D/R records; two-decimal rounding slack (0.005 per A/D record) only in the free-float regime, exact comparison in the quarter/centi regimes; compositions compared only where the content is fully known. Known finding F4 (Fluent distribute source range) is reported as KNOWN-FINDING.",
         technique="deterministic simulation: seeded programs, peer-model (robot interpreter) replay of records and of the written file, lock-step comparison with the digital twin",
         ref="DESIGN.md section 5 / C01",
     ),
     "C02": dict(
         level="exploration",
-        text="Seeded histories over every tracked entry point (add/remove/aspirate/dispense/transfer/distribute/evo_aspirate/evo_dispense) in which rejections are aimed at the limit at a chosen element or sub-step (far beyond, one grid step, one ulp, inf) and about one operation in twelve is interrupted at a robotools source line; after every operation - accepted, rejected or interrupted - limits, non-negativity, the frame condition, per-well bounds (a well never gains more than the call adds to it nor loses more than it removes) and an exact-arithmetic must-reject condition are checked. Sampling over seeds.",
+        text="Seeded histories over every tracked entry point (add/remove/aspirate/dispense/transfer/distribute/evo_aspirate/evo_dispense) in which rejections are aimed at the limit at a chosen element or sub-step (far beyond, one grid step, one ulp, inf) and about one operation in twelve is interrupted at a robotools source line; after every operation - accepted, rejected or interrupted - limits, non-negativity, the frame condition, per-well bounds (a well never gains more than the call adds to it nor loses more than it removes) and an exact-arithmetic must-reject condition are checked. Sampling over seeds. Labware constructed in mid-script with a negative initial volume must be refused; limits are reassigned after construction; NaN / slightly negative volumes and non-pairing compositions are issued as calls that must be refused or harmless.",
         note="Trusted: harness-side plan of the requested moves (verif/sim/ops.py) and exact Fraction arithmetic; must-reject is only demanded beyond a few ulp of float slack; spurious rejections are deliberately not judged.",
         technique="deterministic simulation + fault injection: aimed rejections at every call site and sub-step, line-level interrupts, exact-arithmetic must-reject oracle",
         ref="DESIGN.md section 5 / C02",
     ),
     "C03": dict(
         level="fault_enumeration",
-        text="Seeded simulation of programs inside a real `with Worklist(path)` block on a real scratch file system, with one terminal fault per execution: every kind of rejection aimed at a chosen sub-step, or an exception injected (sys.settrace) at a chosen robotools source line of the terminal operation - every line in the thorough tier (every k-th line for programs so large that full enumeration would re-execute more than 3e6 line events). An independent robot interpreter replays the record list after every operation and the file written by the real __exit__. Sampling over programs, enumeration over crash points within a program; evidence, not proof.",
+        text="Seeded simulation of programs inside a real `with Worklist(path)` block on a real scratch file system, with one terminal fault per execution: every kind of rejection aimed at a chosen sub-step, or an exception injected (sys.settrace) at a chosen robotools source line of the terminal operation - every line in the thorough tier (every k-th line for programs so large that full enumeration would re-execute more than 3e6 line events). An independent robot interpreter replays the record list after every operation and the file written by the real __exit__. Sampling over programs, enumeration over crash points within a program; evidence, not proof. Further faults: an interrupt inside an explicit save() to the worklist's own path, the worklist's max_volume reassigned in mid-script, a second worklist object with other settings, verbatim repetition of the previous call, a decisive follow-up (a volume no named well can afford) after an invalid call that was let through; the file written by the real __exit__ must hold exactly the replayed records.",
         note="Trusted: the robot interpreter (verif/sim/robot.py) as the meaning of A/D/R/B; records, per-record 0.005 rounding slack in the free-float regime; CPython's settrace line events as the set of crash points; undecodable records are counted and end the replay clauses for that run (decoding is C01's subject).",
         technique="deterministic simulation + fault injection: seeded programs, aimed rejections, line-level interrupt enumeration, robot replay of records and of the file written by __exit__",
         ref="DESIGN.md section 5 / C03",
@@ -50,14 +50,14 @@ CHECKS = {
     ),
     "C05": dict(
         level="exploration",
-        text="Seeded histories of transfers, distributions, dispenses of known composition and removals in exact-friendly volume regimes, stepped in lock-step with an exact volumetric mixing model; mixing, finiteness, normalisation, inertness of removals, conservation of every component and the default naming rule are checked after every step. The statement itself has no fault dimension (the weakest fit of the technique: its value is the reference model over long histories); rejected operations are nevertheless interleaved in half of the runs - the wells a rejected call addressed become content-unknown, everything else must be untouched, and the history goes on, so state left behind by a failed call is seen by the later steps. Sampling over seeds.",
+        text="Seeded histories of transfers, distributions, dispenses of known composition and removals in exact-friendly volume regimes, stepped in lock-step with an exact volumetric mixing model; mixing, finiteness, normalisation, inertness of removals, conservation of every component and the default naming rule are checked after every step. The statement itself has no fault dimension (the weakest fit of the technique: its value is the reference model over long histories); rejected operations are nevertheless interleaved in half of the runs - the wells a rejected call addressed become content-unknown, everything else must be untouched, and the history goes on, so state left behind by a failed call is seen by the later steps. Sampling over seeds. A third grid (multiples of 0.001 uL) leaves crumbs below the printed resolution in wells.",
         note="Trusted: the ledger's mixing model; wells that received liquid of unknown composition are exempt from the mixing and sum clauses only; for self-overlapping transfers the sub-step order is taken from the emitted records, guarded by the requested flow totals.",
         technique="deterministic simulation + fault injection: seeded histories with interleaved aimed rejections, lock-step exact-arithmetic reference model, conservation invariant",
         ref="DESIGN.md section 5 / C05",
     ),
     "C11": dict(
         level="exploration",
-        text="Seeded histories mixing add/remove/aspirate/dispense/transfer/distribute (zero volumes, split volumes, same-labware transfers, all label forms) with rejections and line-level interrupts interleaved; an append-only model of the history is compared after every successful operation (prefix, entry count, newest entry and label incl. the large-volume count, report), and an aliasing monitor keeps every array ever handed out by `volumes`/`history` by reference next to a private copy for the whole run. Sampling over seeds.",
+        text="Seeded histories mixing add/remove/aspirate/dispense/transfer/distribute (zero volumes, split volumes, same-labware transfers, all label forms) with rejections and line-level interrupts interleaved; an append-only model of the history is compared after every successful operation (prefix, entry count, newest entry and label incl. the large-volume count, report), and an aliasing monitor keeps every array ever handed out by `volumes`/`history` by reference next to a private copy for the whole run. Sampling over seeds. EVO script commands (one entry per call) are part of the histories; the k-th printed state of the report must show the k-th entry's volumes.",
         note="Trusted: harness-side plan for what moved; the count of a transfer that moves nothing is accepted as 0 or 1; labware touched by an injected interrupt leaves the per-operation clauses for the rest of the run. Known finding F7 (labels 'first'/'last') is reported as KNOWN-FINDING.",
         technique="deterministic simulation + fault injection: seeded histories, append-only history model, snapshot/aliasing monitor over the recorded history",
         ref="DESIGN.md section 5 / C11",
